@@ -914,7 +914,8 @@ class Frame:
                 raise Unsupported("break inside a loop with invariant")
             eng.oblige(f"{lname}/inv-step", T.zb(spec.invariant(self, T.add(k, 1))), kind="inv-step")
             raise PathEnd("inv-step")
-        # (c) after the loop
+        # (c) after the loop: n iterations are complete (a functional havoc has installed the specified state for k iterations: k = n)
+        eng.assume(T.compare("eq", k, n))
         eng.assume(T.zb(spec.invariant(self, n)))
         self.exec_block(st.orelse)
 
